@@ -279,7 +279,9 @@ template<class GraphImpl>
 void TreeGraphImpl<GraphImpl>::fillListOfLeaves_(Graph::NodeId startingNode, std::vector<Graph::NodeId>& foundLeaves) const
 {
   const std::vector<Graph::NodeId> sons = getSons(startingNode);
-  if (sons.size() > 1)
+  // an inner node may have a single son: a leaf is a node without son
+  // (unrooted tree: with at most one neighbour)
+  if (!isLeaf(startingNode))
   {
     for (std::vector<Graph::NodeId>::const_iterator currNeighbor = sons.begin(); currNeighbor != sons.end(); currNeighbor++)
     {
